@@ -5,7 +5,7 @@ from harness import tlc, par, dsreplay
 
 
 def run_family(ctx, family, fmt="text", variant=None, fresh=True, timeout_s=900, limit=None, nontrivial_key=None,
-               module="MC_Dataset", seed_sample=None):
+               module="MC_Dataset", seed_sample=None, always_nontrivial=False, nontrivial_fn=None):
     res = tlc.run(module, "%s_%s" % (module, family), tag="%s_%s_%s" % (ctx.pid, module, family), timeout_s=timeout_s)
     ctx.add_tlc("%s/%s" % (module, family), res, {"Family": family})
     objs = res.emitted
@@ -18,7 +18,7 @@ def run_family(ctx, family, fmt="text", variant=None, fresh=True, timeout_s=900,
     for o, r in zip(objs, results):
         ctx.traces += 1
         ctx.evaluations += r["n"]
-        if r["nontrivial"]:
+        if (nontrivial_fn(o) if nontrivial_fn else (r["nontrivial"] or always_nontrivial)):
             ctx.nontriv(json.dumps([o["inputs"], o.get("clim") if o.get("hasClim") else None, o["opts"]], sort_keys=True))
         for site, detail, rep in r["divs"]:
             ctx.diverge(site, rep, detail=detail)
